@@ -77,7 +77,10 @@ def build_harness(profiles):
 # ------------------------------------------------------------------------------------------------
 
 def tlc_cmd(workers, xmx="3g", deque=False):
-    opts = ["java", "-XX:+UseSerialGC" if workers == 1 else "-XX:+UseParallelGC", "-Xmx" + xmx, "-Xss1g"]
+    # TLC leaves an empty tlc-* directory in java.io.tmpdir per run: keep them under out/ (git-ignored)
+    tmpd = os.path.join(OUT, "jtmp")
+    os.makedirs(tmpd, exist_ok=True)
+    opts = ["java", "-XX:+UseSerialGC" if workers == 1 else "-XX:+UseParallelGC", "-Xmx" + xmx, "-Xss1g", "-Djava.io.tmpdir=" + tmpd]
     if deque:
         opts.append("-Dtlc2.tool.queue.IStateQueue=StateDeque")
     return opts + ["-cp", TLA_CP, "tlc2.TLC", "-workers", str(workers)]
